@@ -950,4 +950,51 @@ theorem charpoly_mix {nb m : Nat} (Q : Nat → Nat → K) (hQ : OrthoOn m (trQ Q
 
 end eig
 
+/-! ## 6. injectivity under the conjugation (for two runs of the model) -/
+section inj
+variable {K : Type} [Field K]
+
+/-- `(I⊗Q)ᵀ·(I⊗Q)·g = g` -/
+theorem bmix_inv {m : Nat} (Q : Nat → Nat → K) (hQ : OrthoOn m Q) (g : Nat → K) (J : Nat) (hm : 0 < m) :
+    bmix m (trQ Q) (bmix m Q g) J = g J := by
+  have hjm : J % m < m := Nat.mod_lt _ hm
+  simp only [bmix_eq, trQ]
+  have e : ∀ c ∈ range m, Q c (J % m) * ∑ q ∈ range m, Q ((J / m * m + c) % m) q * g ((J / m * m + c) / m * m + q)
+      = ∑ q ∈ range m, (Q c (J % m) * Q c q) * g (J / m * m + q) := by
+    intro c hc
+    rw [blk_div (J / m) (mem_range.mp hc), blk_mod (J / m) (mem_range.mp hc), Finset.mul_sum]
+    apply Finset.sum_congr rfl; intro q _; ring
+  rw [Finset.sum_congr rfl e, Finset.sum_comm]
+  have e2 : ∀ q ∈ range m, ∑ c ∈ range m, (Q c (J % m) * Q c q) * g (J / m * m + q)
+      = (if J % m = q then 1 else 0) * g (J / m * m + q) := by
+    intro q hq
+    rw [← Finset.sum_mul, hQ _ hjm q (mem_range.mp hq)]
+  rw [Finset.sum_congr rfl e2, sum_delta hjm, Nat.div_add_mod']
+
+/-- injectivity of a square block is preserved by the conjugation with `I⊗Q` -/
+theorem inj_mix {nb m : Nat} (hm : 0 < m) (Q : Nat → Nat → K) (hQ : Orth2 m Q) (G : Nat → Nat → K)
+    (hinj : ∀ y : Nat → K, (∀ I < nb * m, ∑ J ∈ range (nb * m), G I J * y J = 0) → ∀ J < nb * m, y J = 0) :
+    ∀ y : Nat → K, (∀ I < nb * m, ∑ J ∈ range (nb * m), bmix2 m Q G I J * y J = 0) → ∀ J < nb * m, y J = 0 := by
+  intro y hy
+  have hyz : ∀ J, y J = bmix m Q (bmix m (trQ Q) y) J := by
+    intro J
+    have := bmix_inv (trQ Q) hQ.rows y J hm
+    exact this.symm
+  have hw : ∀ I, I < nb * m → bmix m Q (fun I' => ∑ J ∈ range (nb * m), G I' J * bmix m (trQ Q) y J) I = 0 := by
+    intro I hI
+    rw [← bmix2_mulVec nb m Q hQ.cols, ← hy I hI]
+    apply Finset.sum_congr rfl; intro J _
+    rw [← hyz J]
+  have hz := hinj (bmix m (trQ Q) y) (by
+    intro I hI
+    rw [← bmix_inv Q hQ.cols (fun I' => ∑ J ∈ range (nb * m), G I' J * bmix m (trQ Q) y J) I hm, bmix_eq]
+    apply Finset.sum_eq_zero; intro c hc
+    rw [hw _ (Cov.blk_lt hI (mem_range.mp hc)), mul_zero])
+  intro J hJ
+  rw [hyz J, bmix_eq]
+  apply Finset.sum_eq_zero; intro q hq
+  rw [hz _ (Cov.blk_lt hJ (mem_range.mp hq)), mul_zero]
+
+end inj
+
 end PV.Cov
